@@ -25,10 +25,6 @@ CB_RSPAWN = 16
 NEVENTS = 16                # sched_gsmtime event pool
 EBUSY = 16
 GSM_MAX_FN = 2715648        # 26 * 51 * 2048
-# sched_gsmtime_execute() never hands over an event requested for frame 0 or 1 of the hyperframe (fn + 2 unreduced): proved as
-# c08_gsm_frame01_refuted and observed on the real code in every run (counted as finding-candidate).  Switch on once the finding is
-# registered in known_findings.json under the key c08-gsmtime-frame01-never-fires.
-REPORT_WRAP_FINDING = True
 SRC = "src/target/firmware/layer1/tdma_sched.c"
 SRC_G = "src/target/firmware/layer1/sched_gsmtime.c"
 
@@ -547,20 +543,18 @@ def oracle(ctx, case, impl):
                 return ("out-of-domain", tuple(sorted(feats)))       # l1s.current_time.fn is a frame number of the hyperframe
             # the property: an event requested for frame F is handed over in the frame two before F (frame numbers count modulo the hyperframe)
             duel = sorted((e for e in gpend if e[0] == (fn + 2) % GSM_MAX_FN), key=lambda e: e[1])
-            lost = [e for e in duel if e[0] != fn + 2]
-            if lost:
-                # sched_gsmtime_execute compares with fn + 2 unreduced: frames 0 and 1 of the hyperframe are never reached
-                # (Coq: c08_gsm_frame01_refuted).  Reported as a violation only when the lead has registered the finding.
-                ctx.count("finding-candidate:c08-gsmtime-frame01-never-fires")
-                feats.add("g-wrap-lost")
-                if REPORT_WRAP_FINDING:
-                    fail("an event requested for frame %d of the next hyperframe is not handed over at frame %d (fn + 2 is not reduced modulo %d)"
-                         % (lost[0][0], fn, GSM_MAX_FN), "c08-gsmtime-frame01-never-fires", len(duel), None)
-                duel = [e for e in duel if e not in lost]
+            wrapped = [e for e in duel if e[0] != fn + 2]          # due across the hyperframe wrap: events for the frames 0 and 1
+            if wrapped:
+                feats.add("g-fire-across-wrap")
             num = take(1)[0]
             if num != len(duel):
-                fail("sched_gsmtime_execute(%d) handed over %d events, %d are requested for frame %d" % (fn, num, len(duel), fn + 2),
-                     "c08-gsm-exec-count", len(duel), num)
+                if wrapped and num == len(duel) - len(wrapped):
+                    # the defect repaired by commit 9c8dce2 (fn + SCHEDULE_AHEAD compared without reduction modulo GSM_MAX_FN): reported under its own key
+                    fail("an event requested for frame %d of the next hyperframe is not handed over at frame %d (is fn + SCHEDULE_AHEAD reduced modulo %d?)"
+                         % (wrapped[0][0], fn, GSM_MAX_FN), "c08-gsmtime-frame01-never-fires", len(duel), num)
+                else:
+                    fail("sched_gsmtime_execute(%d) handed over %d events, %d are requested for frame %d" % (fn, num, len(duel), (fn + 2) % GSM_MAX_FN),
+                         "c08-gsm-exec-count", len(duel), num)
                 return None
             if duel:
                 feats.add("g-fire%d" % min(len(duel), 3))
@@ -807,7 +801,8 @@ def run(ctx):
     # one-shot GSM-time events on top: the real sched_gsmtime.c + tdma_sched.c against Model/SchedGsmtime.v
     ng = 1500 if ctx.tier == "quick" else 40000
     gcases = [gen_gsm_case(rng, k) for k in range(ng)] + gsm_grid_cases()
-    # the witness of c08_gsm_frame01_refuted on the real code in every run: frame 2715640, one-shot events for frames 0, 1 (never handed over), 2
+    # the hyperframe wrap on the real code in every run (Coq: ex_gsm_wrap): frame 2715640, one-shot events for the frames 0, 1, 2 of the next hyperframe
+    # (before commit 9c8dce2 the first two were never handed over: key c08-gsmtime-frame01-never-fires)
     for F in (0, 1, 2):
         wops = [("g", F, 77, [(3, 3, 33, 0, 0), (0, 0, 0, 0, 0), (1, 0, 0, 0, 0)])]
         for i in range(40):
@@ -833,11 +828,6 @@ def run(ctx):
             ctx.count("gsm:" + key[0])
             ctx.nontrivial(("gsm",) + key)
     ctx.sample(dict(line=glines[0][:300], impl=gimpl[0][:60]))
-    nwrap = ctx.hist.get("finding-candidate:c08-gsmtime-frame01-never-fires", 0)
-    if nwrap:
-        ctx.notes.append("sched_gsmtime_execute never hands over an event requested for frame 0 or 1 of the hyperframe (fn + SCHEDULE_AHEAD is not "
-                         "reduced modulo GSM_MAX_FN): observed %d times on the real code in this run, proved as c08_gsm_frame01_refuted; not reported "
-                         "as a violation until registered (REPORT_WRAP_FINDING)" % nwrap)
     ctx.count("operations", nops)
     for k in range(0, len(cases), max(1, len(cases) // 5)):
         ctx.sample(dict(line=lines[k][:300], impl=impl[k][:60]))
